@@ -407,7 +407,8 @@ func (i *Interpreter) ProcessStringConcatInfixExpression(exp *ast.InfixExpressio
 	if err != nil {
 		return value.Null, errors.WithStack(err)
 	}
-	if exp.Explicit {
+	if exp.Explicit && right[0].Operator == "" {
+		// keep the sign of a signed operand: now + -5m subtracts
 		right[0].Operator = exp.Operator
 	}
 	series = append(series, right...)
@@ -601,7 +602,7 @@ func (i *Interpreter) toSeriesExpression(expr ast.Expression) ([]*series, error)
 		if err != nil {
 			return nil, err
 		}
-		if t.Explicit {
+		if t.Explicit && right[0].Operator == "" {
 			right[0].Operator = t.Operator
 		}
 		s = append(s, right...)
